@@ -95,6 +95,18 @@ static void run(Src &s) {
 
   std::vector<std::string> want_all;
   for (auto &c : cons) want_all.push_back(collapse_slashes(c.path(g_scr.dir)));
+  // single file: half of the time it is named relative to the working directory (= the scratch root); the
+  // callback must then see exactly that name
+  std::string single_name;
+  if (ep == 3) {
+    single_name = cons[0].path(g_scr.dir);
+    if (s.chance(50)) {
+      single_name = collapse_slashes(cons[0].rel).substr(1);  // strip the leading slash
+      if (s.chance(30)) single_name = "./" + single_name;
+      want_all[0] = single_name;
+      g_case.tag("relative_single_file");
+    }
+  }
   Model exp = expected_model(cons);
 
   for (auto &rej : sets) {
@@ -134,7 +146,7 @@ static void run(Src &s) {
     if (ep == 3) {
       const void *cbdata[2] = {&cb, cookie};
       econf_file *kf = (econf_file *)-1;
-      rr.rc = econf_readFileWithCallback(&kf, cons[0].path(g_scr.dir).c_str(), D.c_str(), "#", tree_callback, cbdata);
+      rr.rc = econf_readFileWithCallback(&kf, single_name.c_str(), D.c_str(), "#", tree_callback, cbdata);
       rr.kf = kf == (econf_file *)-1 ? nullptr : kf;
       if (kf == (econf_file *)-1 && rr.rc == ECONF_SUCCESS) VF_FAIL("no-object", ctx << ": success without object");
     } else {
@@ -223,7 +235,13 @@ int main(int argc, char **argv) {
   h.run = run;
   h.base = 40;
   h.per_size = 16;
-  h.setup = [] { g_scr.init(); };
-  h.teardown = [] { g_scr.cleanup(); };
+  h.setup = [] {
+    g_scr.init();
+    if (chdir(g_scr.dir.c_str()) != 0) perror("chdir");
+  };
+  h.teardown = [] {
+    if (chdir("/") != 0) perror("chdir");
+    g_scr.cleanup();
+  };
   return engine_main(argc, argv, h);
 }
